@@ -8,7 +8,7 @@
   every text with every fault at every position.  Directives run through an oracle `call` that
   may change the live procedure table; where a theorem needs side-effect freedom it says so.
 -/
-import PrologVerif.Proofs.Text
+import PrologVerif.Proofs.TextContig
 namespace PrologVerif.C20
 open PrologVerif PrologVerif.Load
 open PrologVerif.DB (PI)
@@ -90,6 +90,94 @@ theorem C20_source_order (fs : FS) (call : Call) (fuel : Nat) (procs : Procs) (i
       simp only [h1, List.filter_nil, List.map_nil, List.append_nil] at this
       rw [this]
       simp [stagedClauses, Text.empty, Table.get]
+
+/-! ### declarations set exactly their flags -/
+
+/-- **C20_flags**: when staging succeeds, the staged entry of EVERY predicate is dynamic /
+    multifile / discontiguous exactly if the text declares it so (anywhere), and public exactly if
+    dynamic; a predicate the text does not declare has none of the flags. -/
+theorem C20_flags (fs : FS) (call : Call) (fuel : Nat) (procs : Procs) (items : List Item)
+    (hni : IncludeFree items) (hok : (stage fs call fuel procs items).2 = none) (pi : PI) :
+    let u := orEmpty ((stage fs call fuel procs items).1.tx.clauses.get pi)
+    u.dynamic = declared (items.map classify) .dynamic pi ∧
+    u.multifile = declared (items.map classify) .multifile pi ∧
+    u.discontiguous = declared (items.map classify) .discontiguous pi ∧
+    u.isPublic = u.dynamic := by
+  unfold stage at hok ⊢
+  split at hok
+  · cases hok
+  · rename_i ls hloop
+    split at hok
+    · cases hok
+    · rename_i tx hfl
+      simp only
+      obtain ⟨h1, h2⟩ := compileLoop_flags fs call fuel items ⟨procs, Text.empty⟩ ls hni hloop
+      obtain ⟨h3, h4⟩ := flush_flags hfl
+      have h0 : ∀ fl, stagedFlag Text.empty fl pi = false := by
+        intro fl; cases fl <;> simp [stagedFlag, flagVal, Text.empty, Table.get, orEmpty, UProc.empty]
+      have hd := h3 .dynamic pi
+      have hm := h3 .multifile pi
+      have hc := h3 .discontiguous pi
+      rw [h1, h0, Bool.false_or] at hd hm hc
+      have hp : PublicOK tx := h4 (h2 (fun pi => by simp [Text.empty, Table.get, orEmpty, UProc.empty]))
+      exact ⟨hd, hm, hc, hp pi⟩
+
+/-! ### contiguity -/
+
+/-- **C20_contiguity**: take any text whose items can fail for no other reason (every item reads
+    as a clause, a well-formed declaration, an initialization directive or a goal directive that
+    succeeds; `Benign`).  Then staging fails IF AND ONLY IF the text is not contiguous in the sense
+    of the specification — some predicate has a later run of clauses (separated from the earlier
+    one by a clause of another predicate or by any directive) that is not preceded by a
+    discontiguous declaration for it — and the error is the contiguity error. -/
+theorem C20_contiguity (fs : FS) (call : Call) (fuel : Nat) (procs : Procs) (items : List Item)
+    (hfuel : items.length < fuel) (hb : ∀ it ∈ items, Benign call it) :
+    ((stage fs call fuel procs items).2 = none ↔ contiguous (items.map classify) = true) ∧
+    (∀ e, (stage fs call fuel procs items).2 = some e → ∃ pi, e = .discontiguous pi) := by
+  obtain ⟨h1, h2⟩ := compileLoop_sim fs call fuel items ⟨procs, Text.empty⟩ ⟨none, [], []⟩ hfuel sim_empty hb
+  unfold stage contiguous
+  cases hsc : scanItems (items.map classify) ⟨none, [], []⟩ with
+  | none =>
+    obtain ⟨ls', pi, hloop⟩ := h1 hsc
+    rw [hloop]
+    simp only
+    refine ⟨⟨?_, ?_⟩, ?_⟩
+    · intro h; cases h
+    · intro h; cases h
+    · intro e he; exact ⟨pi, by simpa using he.symm⟩
+  | some s' =>
+    obtain ⟨ls', hloop, hsim⟩ := h2 s' hsc
+    rw [hloop]
+    simp only
+    obtain ⟨f1, f2⟩ := flush_sim hsim
+    cases he : endRun s' with
+    | none =>
+      obtain ⟨pi, hf⟩ := f1 he
+      rw [hf]
+      simp only [Option.isSome_none]
+      refine ⟨⟨?_, ?_⟩, ?_⟩
+      · intro h; cases h
+      · intro h; cases h
+      · intro e he; exact ⟨pi, by simpa using he.symm⟩
+    | some s'' =>
+      obtain ⟨tx', hf, _, _⟩ := f2 s'' he
+      rw [hf]
+      simp only [Option.isSome_some, true_and]
+      intro e he
+      cases he
+
+/-- a decidable sufficient condition for `Benign`: not a fault, not an include, not a goal directive -/
+def benignB (it : Item) : Bool :=
+  match classify it with
+  | .fault | .goal _ => false
+  | _ => !isInclude it
+
+theorem benign_of_benignB (call : Call) (it : Item) (h : benignB it = true) : Benign call it := by
+  unfold benignB at h
+  refine ⟨?_, ?_, ?_⟩
+  · intro e; rw [e] at h; cases h
+  · split at h <;> simp_all
+  · intro p g e; rw [e] at h; cases h
 
 /-! ### the commit: replace, or append when both are multifile; nothing else is touched -/
 
@@ -174,5 +262,10 @@ example : (stage (fun _ => none) pureCall 100 [] demoGood).2 = none := by decide
 example : stagedClauses (stage (fun _ => none) pureCall 100 [] demoGood).1.tx ⟨"a", 1⟩ =
     [Term.a1 "a" (.int 1), Term.a1 "a" (.int 2)] := by decide +kernel
 example : IncludeFree demoGood := by unfold IncludeFree; decide
+example : ∀ it ∈ demoGood, Benign pureCall it := by
+  have : ∀ it ∈ demoGood, benignB it = true := by decide +kernel
+  exact fun it hit => benign_of_benignB _ it (this it hit)
+example : contiguous (demoGood.map classify) = true := by decide +kernel
+example : contiguous (demoBad.map classify) = false := by decide +kernel
 
 end PrologVerif.C20
